@@ -370,7 +370,15 @@ func (y *LeafList) setParent(p Meta) {
 	y.parent = p
 }
 
-var anyType = newType("any")
+// the one type object every anydata / anyxml shares: compiled here, once, so that loading never writes it
+var anyType = newAnyType()
+
+func newAnyType() *Type {
+	t := newType("any")
+	t.format = val.FmtAny
+	t.delegate = t
+	return t
+}
 
 type Any struct {
 	ident          string
